@@ -209,6 +209,10 @@ type verifFake struct {
 	releaseReceive chan struct{}
 	// infoReplication: what INFO replication answers (a source node in the cmd harness)
 	infoReplication string
+	// badDump: the server cannot load RESTORE payloads (an older target that does not know the value
+	// encoding): cluster.c restoreCommand answers "Bad data format" after the BUSYKEY test and before
+	// anything is deleted or created
+	badDump bool
 }
 
 var verifErrReply = common.RedisError("OOM command not allowed when used memory > 'maxmemory'")
@@ -387,6 +391,9 @@ func (f *verifFake) apply(r verifReq) interface{} {
 		exists := f.st.obj(r.db, k, false) != nil || f.st.hash(r.db, k, false) != nil
 		if exists && !replace {
 			return common.RedisError("BUSYKEY Target key name already exists.")
+		}
+		if f.badDump {
+			return common.RedisError("ERR Bad data format")
 		}
 		f.st.delHash(r.db, k)
 		f.st.delObj(r.db, k)
